@@ -33,7 +33,12 @@ RULE = ("hand-written seed circuits (self-loop, 2/3-cycles, diamond, every harml
         "documented chained event to the FSM itself, two of them, or an endless chain), on_enter/on_exit/on_notrans/"
         "on_output events with filters (a quarter of the first on_enter/on_exit events straight back to the FSM), "
         "timed states with zero or positive duration whose expiry is delivered on the virtual loop (`tick`), OutputFunc with a returning/failing function and 0..2 on_success / 0..1 on_error "
-        "events sent from inside its handler, a quarter of the first on_success events looping straight back), 0..2 on_output, 0..1 on_every_output and 0..2 explicitly sent "
+        "events sent from inside its handler, a quarter of the first on_success events looping straight back), "
+        "Repeat blocks (destination: the next block, a random block or itself; repeated type mostly one the destination knows; count None/0/1/2; "
+        "interval 0.7 s on the virtual clock: the op `adv` lets the time pass so that the main tasks re-send, one protocol line `resend` per repetition in the real order), "
+        "FSM cond_EVENT callbacks for a third of the events (0..1 statements: send / try-send an explicit event, raise, a direct event() call to any block; "
+        "then a constant or the truth value of the data item `value`), a third of the Inputs / Counters / FSMs persistent with an (empty) storage and sync_state, "
+        "0..2 on_output, 0..1 on_every_output and 0..2 explicitly sent "
         "events per block with random destination (self-loops, cycles, diamonds), event type (known, "
         "unknown, EventCond incl. nested and None branches), 0..2 filters; start-up of the circuit, "
         "then every external sequence of length <= 2 (quick: a random subset) / <= 3 over an alphabet of "
@@ -43,10 +48,14 @@ ASSUMPTIONS = [
     "scripted handlers either propagate the exceptions of the events they send or swallow all of them "
     "(try/except Exception: pass around one send); OutputFunc catches only the exceptions of its function",
     "values are ints/bools, so that Counter arithmetic never sees a non-number",
-    "FSM: cond_EVENT callbacks, the `duration` data item, persistence and user-defined calc_output are not "
-    "modelled (the output is the state name); the event data item `sdata` is left out; timers fire one at a "
-    "time in the order the event loop delivers them (recorded from the implementation); Repeat is not part of "
-    "this model",
+    "FSM: the `duration` data item and user-defined calc_output are not modelled (the output is the state name); the "
+    "event data item `sdata` is left out; timers fire one at a time in the order the event loop delivers them "
+    "(recorded from the implementation); cond_EVENT callbacks are scripts given as keyword arguments (no cond methods)",
+    "Repeat: WHEN the main task re-sends and with which counter is the implementation's (C18); the model validates the "
+    "counter (previous + 1, within count) and computes the delivery; the repeated type is a string; the queue itself is "
+    "not compared (only what is re-sent)",
+    "persistence: the storage is an empty dict (nothing is restored); saves are observed at get_state() and do not "
+    "change the dispatch state; restoring and expiry are C06's",
 ]
 EXHAUSTIVE = {'quick': False, 'thorough': False}
 
